@@ -943,3 +943,8 @@ mod test {
         assert_eq!(Ordering::Less, compare_version_string("1.1Á1", "1.11"));
     }
 }
+
+// Verification harnesses (Kani); compiled only by the Kani compiler, which sets cfg(kani).
+#[cfg(kani)]
+#[path = "/verif/harness/version.rs"]
+mod verif_kani;
